@@ -70,7 +70,7 @@ def period_len(gran, day0):
 
 def gen_case(rng, tier="quick"):
     gran = rng.choice(["day", "day", "week", "month"])
-    n = rng.choice([1, 2, 3, 5, 8, 12] + ([20, 40] if tier == "thorough" else []))
+    n = rng.choice([1, 2, 3, 5, 8, 12] + ([16, 20] if tier == "thorough" else []))
     start = dfc(rng.choice([2023, 2024, 2024, 2025]), rng.choice([1, 2, 3, 6, 12, 12]), rng.choice([1, 15, 25, 28]))
     ndims = rng.choice([0, 0, 1, 1, 2])
     domains = [["a", "b"], ["x", "y", None]][:ndims]
@@ -297,7 +297,7 @@ def run(c):
             npairs = check_lagoffset(c)
         except Exception as e:
             c.obligation("translator validation", False, "translator", repr(e)[-800:])
-    n = 160 if c.tier == "quick" else 1000
+    n = 160 if c.tier == "quick" else 700
     cases = corpus_cases() + [gen_case(c.rng, c.tier) for _ in range(n)]
     terms, index = [], []
     for i, case in enumerate(cases):
@@ -350,7 +350,7 @@ def run(c):
         c.obligation("correspondence: Model/Window == compile()+DuckDB on %d window columns of %d series" % (len(terms), len(cases)), not fid_bad, "correspondence", json.dumps(fid_bad[:1], default=str)[:1800])
     c.obligation("oracle: implementation window columns == reference period definitions", not c.violations, "correspondence")
     c.coverage.update({"evaluations": len(terms) + npairs, "distinct_nontrivial": nontrivial,
-                       "rule": "generated daily/weekly/monthly series (1-12 periods, thorough up to 40; 1-3 raw rows per period and combination; NULL/zero/negative values; 0-2 extra categorical "
+                       "rule": "generated daily/weekly/monthly series (1-12 periods, thorough up to 20; 1-3 raw rows per period and combination; NULL/zero/negative values; 0-2 extra categorical "
                                "dimensions incl. NULL members; 15% with gaps; optional filter; bare or suffixed time dimension) x cumulative (running / N days / grain-to-date week..year; sum/avg/count/min/max) "
                                "x time comparison (6 types x 3 calculations) x offset ratio; non-trivial = window column with more than two output rows",
                        "traces_validated_against_impl": len(terms), "distribution": dist, "exhaustive": False})
